@@ -115,6 +115,7 @@ type gcCfg struct {
 	k      int
 	rel    bool
 	zfirst bool // a zero-sized component with a lower ID than the pointer component is part of every entity
+	pcLast bool // the pointer component is registered after the others (its ID differs from its column position)
 }
 
 func (c *gcCfg) Name() string { return c.id }
@@ -167,9 +168,14 @@ func (c *gcCfg) New() wx.Run {
 	if c.zfirst {
 		r.z = ecs.ComponentID[sim.CompZ](&r.w)
 	}
-	r.pc = ecs.ComponentID[gen14.PC](&r.w)
+	if !c.pcLast {
+		r.pc = ecs.ComponentID[gen14.PC](&r.w)
+	}
 	r.a = ecs.ComponentID[sim.CompA](&r.w)
 	r.r = ecs.ComponentID[sim.CompR](&r.w)
+	if c.pcLast {
+		r.pc = ecs.ComponentID[gen14.PC](&r.w)
+	}
 	r.nextCan = 0xABCD000000000000
 	return r
 }
@@ -472,8 +478,8 @@ func typeHasPointers(tp reflect.Type) bool {
 
 // c14Traces replays every history of the E2 scenario up to the given depth single-threaded with the memory hook installed,
 // abstracts the memory operations on pointer-bearing columns of each operation, and returns the distinct abstract traces.
-func c14Traces(depth int) (shapes map[string]*gcTrace, opsTraced int) {
-	cfg := &gcCfg{id: "c14-trace", k: 3, rel: true}
+func c14Traces(depth int, pcLast bool) (shapes map[string]*gcTrace, opsTraced int) {
+	cfg := &gcCfg{id: "c14-trace", k: 3, rel: true, pcLast: pcLast}
 	shapes = map[string]*gcTrace{}
 	var cur []memRec
 	ecs.VerifSetMemHook(func(op ecs.VerifMemOp) {
@@ -693,9 +699,10 @@ func c14KindTraces(shapes map[string]*gcTrace) (traced int, kinds []string) {
 	for _, k := range ks {
 		kinds = append(kinds, k.name)
 		w := ecs.NewWorld(ecs.NewConfig().WithCapacityIncrement(1))
-		id := ecs.TypeID(&w, k.tp)
+		// the pointer-bearing component is registered last: its ID (2) differs from its column position in most tables
 		a := ecs.ComponentID[sim.CompA](&w)
 		rid := ecs.ComponentID[sim.CompR](&w)
+		id := ecs.TypeID(&w, k.tp)
 		var e1, e2, e3 ecs.Entity
 		steps := []struct {
 			name string
@@ -737,7 +744,15 @@ func c14KindTraces(shapes map[string]*gcTrace) (traced int, kinds []string) {
 
 func c14Model(rp *runner.Report) {
 	depth := pick(rp.Tier, 3, 4)
-	shapes, traced := c14Traces(depth)
+	shapes, traced := c14Traces(depth, false)
+	shapesLast, tracedLast := c14Traces(depth, true)
+	for k, v := range shapesLast {
+		if _, ok := shapes[k]; !ok {
+			v.example = "(pointer component registered last) " + v.example
+			shapes[k] = v
+		}
+	}
+	traced += tracedLast
 	t2, kinds := c14KindTraces(shapes)
 	traced += t2
 	rp.Extra["pointer_kinds_traced"] = kinds
@@ -796,6 +811,7 @@ func init() {
 			job(scAny(&gcCfg{id: "c14-gc-k2", k: 2, rel: true}), pick(tier, 6, 9), 2),
 			job(scAny(&gcCfg{id: "c14-gc-k3", k: 3, rel: false}), pick(tier, 5, 7), 1),
 			job(scAny(&gcCfg{id: "c14-gc-k2-zero-sized-first", k: 2, rel: false, zfirst: true}), pick(tier, 5, 7), 1),
+			job(scAny(&gcCfg{id: "c14-gc-k2-pointer-registered-last", k: 2, rel: true, pcLast: true}), pick(tier, 5, 7), 1),
 		}
 	}
 	gcJobs("quick")
